@@ -391,7 +391,8 @@ def gen_ir(seed):
             gadgets.append(["failop", rng.below(len(FAIL_OPS)), u])
     # reset sessions: the program after the reset is either compiled after it, or was compiled BEFORE it by the host (which kept
     # the function) and is executed after it
-    return {"gadgets": gadgets, "reset": (rng.choice([True, "compiled"]) if rng.chance(0.15) else False)}
+    return {"gadgets": gadgets, "reset": (rng.choice([True, "compiled"]) if rng.chance(0.15) else False),
+            "hostmod": (rng.range(1, 9) if rng.chance(0.1) else 0)}
 
 
 def render_gadget(g, gi):
@@ -473,6 +474,11 @@ def programs(ir):
     """the scenario's program list: normally one program; with ir["reset"] the interpreter is reset (Vm::reset) after it and
     a second program then uses the core library, a re-imported module and fresh allocations"""
     progs = [{"kind": "snippet", "source": render(ir)}]
+    if ir.get("hostmod"):
+        # the host registers a native in a namespace of its own that does not exist yet, and runs a script there
+        progs += [{"kind": "defnative", "module": "sandbox%d" % ir["hostmod"], "name": "emit"},
+                  {"kind": "defnative", "module": "sandbox%d" % ir["hostmod"], "name": "audit"},
+                  {"kind": "snippet", "module": "sandbox%d" % ir["hostmod"], "source": 'emit(("ev", "sandbox", 1)); audit(("ev", "sandbox", 2)); emit(("ev", "sandbox", 3));\n'}]
     if ir.get("reset") == "compiled":
         progs += [{"kind": "compile", "source": AFTER_RESET}, {"kind": "reset"}, {"kind": "run", "slot": 0}]
     elif ir.get("reset"):
